@@ -80,7 +80,7 @@ def run(ctx):
     # ---- (2) mutation influx
     injects = []
     for d in range(1, 6):
-        for rep in range(ctx.pick(2, 8)):
+        for rep in range(ctx.pick(2, 150)):
             n = rng.randint(3, 5) if d >= 4 else rng.randint(4, 8)
             g = numgen.grid(rng, n)
             fr = [rng.random() < 0.3 for _ in range(d)]; nm = [rng.random() < 0.3 if d == 2 else False for _ in range(d)]
@@ -92,7 +92,7 @@ def run(ctx):
     # ---- (3) frozen marginals through the public drivers (const and function paths)
     frozen_cases = []
     for d in range(2, 6):
-        for rep in range(ctx.pick(3, 12)):
+        for rep in range(ctx.pick(3, 200)):
             n = {2: rng.randint(5, 8), 3: rng.randint(4, 6), 4: 4, 5: 3}[d]
             if d == 5 and not ctx.quick:
                 n = rng.choice([3, 4])
@@ -157,7 +157,7 @@ def run(ctx):
     # ---- (6) remove / filter
     removes = []
     for d in range(2, 6):
-        for rep in range(ctx.pick(2, 6)):
+        for rep in range(ctx.pick(2, 120)):
             n = rng.randint(3, 5)
             g = numgen.grid(rng, n)
             phi = numgen.density(rng, n ** d, kind='random')
@@ -304,9 +304,9 @@ def run(ctx):
              '%s on a %d-D density is not the trapezoid marginal over the dropped populations in the original order (rel dev %.3g)' % (c['op'], d, dev),
              {'d': d, 'dev': dev, 'case': c}, sig=('remove', c['id']))
     # ---- correspondence of the frozen-flag drivers against the model
-    sel = [c for c in frozen_cases if '_out' in c][:ctx.pick(6, 40)]
+    sel = [c for c in frozen_cases if '_out' in c][:ctx.pick(6, 120)]
     exprs = [(c['id'], c02.coq_dcase(c, c['_out'])) for c in sel]
-    results = ctx.coq_cases('driver', HEADER, exprs, '(dcheck %s)' % q(TOL), 'rel 1e-09 of max|phi|', shard=ctx.pick(2, 6), timeout=1800)
+    results = ctx.coq_cases('driver', HEADER, exprs, '(dcheck %s)' % q(TOL), 'rel 1e-09 of max|phi|', shard=ctx.pick(2, 16), timeout=1800)
     for c in sel:
         rr = results.get(c['id'])
         ok = rr is not None and rr[0]
